@@ -151,6 +151,67 @@ def op_sequence(case):
     return {"outs": outs}
 
 
+@register("sequence_pipeline")
+def op_sequence_pipeline(case):
+    """groups of call trees under different workflow names sequenced by ONE run of the real otel_to_pv each: the
+    prior-information and rename maps travel through the configuration (SequenceModelConfig, looked up per workflow
+    name), the spans through the SQL data holder (in-memory database) and the grouped stream"""
+    from tel2puml.otel_to_pv import ingest_otel_data as iod
+    from tel2puml.otel_to_pv.config import IngestDataConfig
+    from tel2puml.otel_to_pv.otel_to_pv import otel_to_pv
+    from tel2puml.otel_to_pv.otel_to_pv_types import OTelEvent
+    t0, mn = 1_700_000_000_000_000_000, 60_000_000_000
+    rnd = random.Random(case.get("seed", 0))
+    outs = []
+    saved = iod.DATASOURCES["json"]
+    try:
+        for group in case["groups"]:
+            evs = []
+            groups, renames = {}, {}
+            for c in group:
+                pfx = c["job"] + "/"
+                for i in range(1, c["n"] + 1):
+                    evs.append(OTelEvent(job_name=c["name"], job_id=c["job"], event_type=c["ty"][i - 1], event_id=pfx + "s%d" % i,
+                                         start_timestamp=t0 + c["s"][i - 1] * mn, end_timestamp=t0 + c["e"][i - 1] * mn,
+                                         application_name=c["app"],
+                                         parent_event_id=None if i == 1 else pfx + "s%d" % c["par"][i - 1], child_event_ids=None))
+                g = {}
+                for p, ct, gid in c["grp"]:
+                    g.setdefault(p, {})[ct] = gid
+                if g:
+                    groups[c["name"]] = g
+                if c["ren"]:
+                    renames[c["name"]] = {r["from"]: {"mapped_event_type": r["to"], "child_event_types": list(r["kids"])}
+                                          for r in c["ren"]}
+            rnd.shuffle(evs)
+
+            class Source:
+                def __init__(self, _config):
+                    pass
+
+                def __iter__(self, evs=evs):
+                    return iter(evs)
+            iod.DATASOURCES["json"] = Source
+            cfg = {"data_sources": {"json": {"dirpath": ".", "filepath": None, "json_per_line": False, "jq_query": "."}},
+                   "data_holders": {"sql": {"db_uri": "sqlite:///:memory:", "batch_size": rnd.choice((1, 3, 7, 50)), "time_buffer": 0}},
+                   "ingest_data": {"data_source": "json", "data_holder": "sql"},
+                   "sequencer": {"async_flag": bool(group[0]["async"]), "async_event_groups": groups,
+                                 "event_name_map_information": renames}}
+            try:
+                jobs = {}
+                for name, streams in otel_to_pv(IngestDataConfig(**cfg), ingest_data=True):
+                    for stream in streams:
+                        pv = [dict(e) for e in stream]
+                        jid = pv[0]["jobId"] if pv else "?"
+                        jobs.setdefault(jid, []).append({"name": name, "pv": pv})
+                outs.append({"jobs": jobs})
+            except Exception as e:  # noqa: BLE001
+                outs.append({"error": "%s: %s" % (type(e).__name__, str(e)[:200])})
+    finally:
+        iod.DATASOURCES["json"] = saved
+    return {"outs": outs}
+
+
 @register("learn_chunks")
 def op_learn_chunks(case):
     """learn a job set in chunks, each chunk boundary crossing save-to-JSON (-om) / load-from-JSON (-im) through the
